@@ -374,6 +374,9 @@ func ratOfNumber(s string) (*big.Rat, bool) {
 		exp = e
 	}
 	neg := false
+	if mant == "" {
+		return nil, false
+	}
 	if mant[0] == '+' || mant[0] == '-' {
 		neg = mant[0] == '-'
 		mant = mant[1:]
@@ -965,3 +968,7 @@ func canonValue(name string, value []cv) string {
 	}
 	return canonList(value, kindOfProp(name))
 }
+
+type bigRat = big.Rat
+
+func newRat(n int64) *big.Rat { return big.NewRat(n, 1) }
